@@ -51,6 +51,7 @@ type Spec struct {
 	Filter    string `json:"filter,omitempty"`
 	FilterArg int    `json:"filter_arg,omitempty"`
 	MissingEmb int   `json:"missing_emb"` // -1 none, else chunk index without embedding
+	ShortEmb   int   `json:"short_emb,omitempty"` // the embedding list is this many entries shorter than the chunk list
 	StreamClose []int `json:"stream_close,omitempty"` // stream: positions at which Close is called in between
 }
 
@@ -108,6 +109,9 @@ func makeChunks(sp *Spec) ([]*rag.Chunk, [][]float64) {
 			e = nil
 		}
 		embs = append(embs, e)
+	}
+	if sp.ShortEmb > 0 && sp.ShortEmb <= len(embs) {
+		embs = embs[:len(embs)-sp.ShortEmb]
 	}
 	return chunks, embs
 }
@@ -194,6 +198,10 @@ func (p *Prop) Generate(base uint64, index int, env *sim.Env) *sim.Case {
 	}
 	if sp.Op == "pinecone" && r.Pct(30) && sp.N > 0 {
 		sp.MissingEmb = r.Intn(sp.N)
+	}
+	if (sp.Op == "pinecone" || sp.Op == "weaviate") && r.Pct(25) && sp.N > 0 {
+		// fewer embeddings than chunks: the chunks beyond the list have none
+		sp.ShortEmb = 1 + r.Intn(sim.MinInt(sp.N, 4))
 	}
 	if sp.Op == "filter" {
 		sp.Filter = sim.Pick(r, []string{"section", "page", "pagerange", "elementtype", "tables", "lists", "images", "mintokens", "maxtokens", "search", "chain", "branch", "branch"})
@@ -826,7 +834,7 @@ func (p *Prop) checkWhole(sp *Spec, got []byte, chunks []*rag.Chunk, embs [][]fl
 		var want []*rag.Chunk
 		var wantE [][]float64
 		for i, c := range chunks {
-			if len(embs[i]) > 0 {
+			if i < len(embs) && len(embs[i]) > 0 {
 				want = append(want, c)
 				wantE = append(wantE, embs[i])
 			}
@@ -869,6 +877,21 @@ func (p *Prop) checkWhole(sp *Spec, got []byte, chunks []*rag.Chunk, embs [][]fl
 			if str(recs[i]["id"]) != c.ID || str(props["content"]) != c.Text || num(props["pageStart"]) != c.Metadata.PageStart {
 				return fmt.Sprintf("object %d does not carry chunk %q", i, c.ID)
 			}
+			vec, has := recs[i]["vector"]
+			switch {
+			case i < len(embs) && len(embs[i]) > 0:
+				var want []interface{}
+				for _, f := range embs[i] {
+					want = append(want, f)
+				}
+				if fmt.Sprint(vec) != fmt.Sprint(want) {
+					return fmt.Sprintf("object %d (chunk %q) carries vector %v, its embedding is %v", i, c.ID, vec, embs[i])
+				}
+			case has && vec != nil:
+				if l, ok := vec.([]interface{}); !ok || len(l) > 0 {
+					return fmt.Sprintf("object %d (chunk %q) has no embedding but carries vector %v", i, c.ID, vec)
+				}
+			}
 		}
 	}
 	return ""
@@ -879,6 +902,7 @@ func (p *Prop) filterCheck(sp *Spec, chunks []*rag.Chunk, fail func(string, stri
 	r := sim.NewRand(sp.Seed ^ 0xF11)
 	var got *rag.ChunkCollection
 	var pred func(*rag.Chunk) bool
+	var again func() *rag.ChunkCollection // the same filter call once more (single filters)
 	branchFail := ""
 	anyTitle := func() string {
 		if len(chunks) == 0 {
@@ -915,36 +939,46 @@ func (p *Prop) filterCheck(sp *Spec, chunks []*rag.Chunk, fail func(string, stri
 		case "section":
 			s := anyTitle()
 			got = cc.FilterBySection(s)
+			again = func() *rag.ChunkCollection { return cc.FilterBySection(s) }
 			pred = func(c *rag.Chunk) bool { return inSection(c, s) }
 		case "page":
 			got = cc.FilterByPage(arg)
+			again = func() *rag.ChunkCollection { return cc.FilterByPage(arg) }
 			pred = func(c *rag.Chunk) bool { return c.Metadata.PageStart <= arg && arg <= c.Metadata.PageEnd }
 		case "pagerange":
 			a, b := arg, arg+r.Intn(4)
 			got = cc.FilterByPageRange(a, b)
+			again = func() *rag.ChunkCollection { return cc.FilterByPageRange(a, b) }
 			pred = func(c *rag.Chunk) bool { return c.Metadata.PageEnd >= a && c.Metadata.PageStart <= b }
 		case "elementtype":
 			ty := sim.Pick(r, []string{"paragraph", "table", "list", "heading", "image", "none"})
 			got = cc.FilterByElementType(ty)
+			again = func() *rag.ChunkCollection { return cc.FilterByElementType(ty) }
 			pred = func(c *rag.Chunk) bool { return hasType(c, ty) }
 		case "tables":
 			got = cc.FilterWithTables()
+			again = func() *rag.ChunkCollection { return cc.FilterWithTables() }
 			pred = func(c *rag.Chunk) bool { return c.Metadata.HasTable }
 		case "lists":
 			got = cc.FilterWithLists()
+			again = func() *rag.ChunkCollection { return cc.FilterWithLists() }
 			pred = func(c *rag.Chunk) bool { return c.Metadata.HasList }
 		case "images":
 			got = cc.FilterWithImages()
+			again = func() *rag.ChunkCollection { return cc.FilterWithImages() }
 			pred = func(c *rag.Chunk) bool { return c.Metadata.HasImage }
 		case "mintokens":
 			got = cc.FilterByMinTokens(arg * 8)
+			again = func() *rag.ChunkCollection { return cc.FilterByMinTokens(arg * 8) }
 			pred = func(c *rag.Chunk) bool { return c.Metadata.EstimatedTokens >= arg*8 }
 		case "maxtokens":
 			got = cc.FilterByMaxTokens(arg * 8)
+			again = func() *rag.ChunkCollection { return cc.FilterByMaxTokens(arg * 8) }
 			pred = func(c *rag.Chunk) bool { return c.Metadata.EstimatedTokens <= arg*8 }
 		case "search":
 			kw := sim.Pick(r, []string{"COMMA", "quote", "#1", "😀", "\n", "json", "", "école", "ärger", "ωmega", "É", "STRASSE", "Ω"})
 			got = cc.Search(kw)
+			again = func() *rag.ChunkCollection { return cc.Search(kw) }
 			pred = func(c *rag.Chunk) bool { return strings.Contains(strings.ToLower(c.Text), strings.ToLower(kw)) }
 		case "branch":
 			// an intermediate result used twice: both uses, and the intermediate result itself,
@@ -1016,6 +1050,51 @@ func (p *Prop) filterCheck(sp *Spec, chunks []*rag.Chunk, fail func(string, stri
 	}
 	if len(cc.Chunks) != len(chunks) {
 		fail("filter:mutated", "filtering changed the collection it was applied to")
+		return
+	}
+	if again == nil || len(chunks) < 2 || !r.Pct(60) {
+		return
+	}
+	// the collection changes between two uses of the same filter (its owner reorders it,
+	// replaces a chunk, retitles a section - the length stays the same): the second answer
+	// is about the collection as it is now
+	switch r.Intn(3) {
+	case 0:
+		for i, j := 0, len(cc.Chunks)-1; i < j; i, j = i+1, j-1 {
+			cc.Chunks[i], cc.Chunks[j] = cc.Chunks[j], cc.Chunks[i]
+		}
+	case 1:
+		i, j := r.Intn(len(cc.Chunks)), r.Intn(len(cc.Chunks))
+		cc.Chunks[i].Metadata.SectionTitle, cc.Chunks[j].Metadata.SectionTitle = cc.Chunks[j].Metadata.SectionTitle, cc.Chunks[i].Metadata.SectionTitle
+		cc.Chunks[i].Metadata.SectionPath, cc.Chunks[j].Metadata.SectionPath = cc.Chunks[j].Metadata.SectionPath, cc.Chunks[i].Metadata.SectionPath
+		cc.Chunks[i].Metadata.HasTable, cc.Chunks[j].Metadata.HasTable = cc.Chunks[j].Metadata.HasTable, cc.Chunks[i].Metadata.HasTable
+		cc.Chunks[i].Metadata.PageStart, cc.Chunks[j].Metadata.PageStart = cc.Chunks[j].Metadata.PageStart, cc.Chunks[i].Metadata.PageStart
+		cc.Chunks[i].Metadata.PageEnd, cc.Chunks[j].Metadata.PageEnd = cc.Chunks[j].Metadata.PageEnd, cc.Chunks[i].Metadata.PageEnd
+	default:
+		i, j := r.Intn(len(cc.Chunks)), r.Intn(len(cc.Chunks))
+		cp := *cc.Chunks[j]
+		cp.ID = cp.ID + "-copy"
+		cc.Chunks[i] = &cp
+	}
+	var got2 *rag.ChunkCollection
+	if _, ok := guard(func() error { got2 = again(); return nil }); !ok {
+		return
+	}
+	var want2 []*rag.Chunk
+	for _, c := range cc.Chunks {
+		if pred(c) {
+			want2 = append(want2, c)
+		}
+	}
+	if len(got2.Chunks) != len(want2) {
+		fail("filter:"+sp.Filter+":after-change", fmt.Sprintf("filter %s, asked again after the collection was changed in place, returned %d chunks, %d satisfy the predicate now", sp.Filter, len(got2.Chunks), len(want2)))
+		return
+	}
+	for i := range want2 {
+		if got2.Chunks[i] != want2[i] {
+			fail("filter:"+sp.Filter+":after-change", fmt.Sprintf("filter %s, asked again after the collection was changed in place: position %d holds chunk %q, expected %q", sp.Filter, i, got2.Chunks[i].ID, want2[i].ID))
+			return
+		}
 	}
 }
 
